@@ -26,7 +26,7 @@ func init() {
 	hx.Register("certtamper", runCertTamper)
 }
 
-type ctLeaf struct {
+type tmLeaf struct {
 	ca    *ccCA
 	crt   cert.Certificate
 	std   []byte
@@ -37,7 +37,7 @@ type ctLeaf struct {
 	twinC cert.Certificate // the certificate with the twin signature (nil unless P-256)
 }
 
-func ctNewLeaf(c *hx.Ctx, ca *ccCA, ver cert.Version) *ctLeaf {
+func tmNewLeaf(c *hx.Ctx, ca *ccCA, ver cert.Version) *tmLeaf {
 	curve := ca.crt.Curve()
 	for {
 		p6 := 0.5
@@ -71,7 +71,7 @@ func ctNewLeaf(c *hx.Ctx, ca *ccCA, ver cert.Version) *ctLeaf {
 		if err != nil {
 			continue // e.g. a duplicate network or an unsafe network without an address of its family
 		}
-		l := &ctLeaf{ca: ca, crt: crt, now: time.Unix(nb+(na-nb)/2, 0)}
+		l := &tmLeaf{ca: ca, crt: crt, now: time.Unix(nb+(na-nb)/2, 0)}
 		l.std, _ = crt.Marshal()
 		l.hs, _ = crt.MarshalForHandshakes()
 		l.fp = ccFp(crt)
@@ -92,7 +92,7 @@ func ctNewLeaf(c *hx.Ctx, ca *ccCA, ver cert.Version) *ctLeaf {
 
 // ---- re-encodings ------------------------------------------------------------------------------
 
-func ctDerLen(n int) []byte {
+func tmDerLen(n int) []byte {
 	switch {
 	case n < 128:
 		return []byte{byte(n)}
@@ -103,8 +103,8 @@ func ctDerLen(n int) []byte {
 	}
 }
 
-// ctDerSplit returns the content of the outermost element of b (short or long definite form)
-func ctDerSplit(b []byte) (tag byte, content []byte, ok bool) {
+// tmDerSplit returns the content of the outermost element of b (short or long definite form)
+func tmDerSplit(b []byte) (tag byte, content []byte, ok bool) {
 	if len(b) < 2 {
 		return 0, nil, false
 	}
@@ -126,14 +126,14 @@ func ctDerSplit(b []byte) (tag byte, content []byte, ok bool) {
 	return b[0], b[h : h+l], true
 }
 
-// ctReencodeV2: variations of a v2 encoding that the decoder tolerates (content kept) or that change the content
+// tmReencodeV2: variations of a v2 encoding that the decoder tolerates (content kept) or that change the content
 // with all lengths repaired.
-func ctReencodeV2(c *hx.Ctx, b []byte) ([]byte, string) {
-	_, inner, ok := ctDerSplit(b)
+func tmReencodeV2(c *hx.Ctx, b []byte) ([]byte, string) {
+	_, inner, ok := tmDerSplit(b)
 	if !ok {
 		return b, "v2-asis"
 	}
-	wrap := func(in []byte) []byte { return append(append([]byte{0x30}, ctDerLen(len(in))...), in...) }
+	wrap := func(in []byte) []byte { return append(append([]byte{0x30}, tmDerLen(len(in))...), in...) }
 	switch c.Intn(6) {
 	case 0: // bytes after the certificate
 		return append(append([]byte{}, b...), c.RandBytes(1+c.Intn(8))...), "v2-trailing-bytes"
@@ -141,7 +141,7 @@ func ctReencodeV2(c *hx.Ctx, b []byte) ([]byte, string) {
 		extra := append([]byte{byte(0x84 + c.Intn(4)), byte(2)}, c.RandBytes(2)...)
 		return wrap(append(append([]byte{}, inner...), extra...)), "v2-extra-element"
 	case 2: // an extra element at the end of the details (lengths repaired): the signed bytes change
-		_, det, ok := ctDerSplit(inner)
+		_, det, ok := tmDerSplit(inner)
 		if !ok {
 			return b, "v2-asis"
 		}
@@ -153,10 +153,10 @@ func ctReencodeV2(c *hx.Ctx, b []byte) ([]byte, string) {
 		rest := inner[hdr+len(det):]
 		_ = dl
 		nd := append(append([]byte{}, det...), 0x88, 0x01, byte(c.Intn(256)))
-		ndet := append(append([]byte{0xa0}, ctDerLen(len(nd))...), nd...)
+		ndet := append(append([]byte{0xa0}, tmDerLen(len(nd))...), nd...)
 		return wrap(append(ndet, rest...)), "v2-details-extended"
 	case 3: // drop the curve element if there is one / add one naming the other curve
-		_, det, ok := ctDerSplit(inner)
+		_, det, ok := tmDerSplit(inner)
 		if !ok {
 			return b, "v2-asis"
 		}
@@ -180,8 +180,8 @@ func ctReencodeV2(c *hx.Ctx, b []byte) ([]byte, string) {
 	}
 }
 
-// ctReencodeV1: protobuf re-encodings. Those that keep the decoded content re-marshal to the signed bytes.
-func ctReencodeV1(c *hx.Ctx, b []byte) ([]byte, string) {
+// tmReencodeV1: protobuf re-encodings. Those that keep the decoded content re-marshal to the signed bytes.
+func tmReencodeV1(c *hx.Ctx, b []byte) ([]byte, string) {
 	// split the top level
 	var details, sig []byte
 	rest := b
@@ -316,7 +316,7 @@ func ctReencodeV1(c *hx.Ctx, b []byte) ([]byte, string) {
 	}
 }
 
-func ctVerify(pool *cert.CAPool, now time.Time, d cert.Certificate) bool {
+func tmVerify(pool *cert.CAPool, now time.Time, d cert.Certificate) bool {
 	cc, err := pool.VerifyCertificate(now, d)
 	if err != nil {
 		return false
@@ -324,9 +324,9 @@ func ctVerify(pool *cert.CAPool, now time.Time, d cert.Certificate) bool {
 	return pool.VerifyCachedCertificate(now, cc) == nil
 }
 
-// ctBlocked: with fp on the blocklist both verification paths must refuse d. The cached path is entered with a
+// tmBlocked: with fp on the blocklist both verification paths must refuse d. The cached path is entered with a
 // CachedCertificate made while the blocklist was still empty.
-func ctBlocked(ca cert.Certificate, now time.Time, d cert.Certificate, fp string) bool {
+func tmBlocked(ca cert.Certificate, now time.Time, d cert.Certificate, fp string) bool {
 	pool := cert.NewCAPool()
 	if err := pool.AddCA(ca); err != nil {
 		panic(err)
@@ -366,7 +366,7 @@ func runCertTamper(c *hx.Ctx) {
 		if style == 2 {
 			b = append([]byte{0}, b...) // redundant leading zero
 		}
-		return append(append([]byte{0x02}, ctDerLen(len(b))...), b...)
+		return append(append([]byte{0x02}, tmDerLen(len(b))...), b...)
 	}
 	nSwap := 60 + c.N/40
 	for i := 0; i < nSwap; i++ {
@@ -391,7 +391,7 @@ func runCertTamper(c *hx.Ctx) {
 		if c.Chance(0.05) {
 			body = append(body, intBytes(big.NewInt(5), 0)...)
 		}
-		sig := append(append([]byte{0x30}, ctDerLen(len(body))...), body...)
+		sig := append(append([]byte{0x30}, tmDerLen(len(body))...), body...)
 		if c.Chance(0.05) {
 			sig = append(sig, 0)
 		}
@@ -407,13 +407,13 @@ func runCertTamper(c *hx.Ctx) {
 	}
 
 	// ---- certificates ----------------------------------------------------------------------------------
-	var leaves []*ctLeaf
+	var leaves []*tmLeaf
 	for v := 1; v <= 2; v++ {
 		for cv := 0; cv <= 1; cv++ {
 			ca := ccNewCA(c, cert.Version(v), cert.Curve(cv))
 			for lv := 1; lv <= 2; lv++ {
 				for k := 0; k < 3; k++ {
-					leaves = append(leaves, ctNewLeaf(c, ca, cert.Version(lv)))
+					leaves = append(leaves, tmNewLeaf(c, ca, cert.Version(lv)))
 				}
 			}
 		}
@@ -446,9 +446,9 @@ func runCertTamper(c *hx.Ctx) {
 			what = "bytes-" + lbl
 		case "reencode":
 			if ver == cert.Version2 {
-				b, what = ctReencodeV2(c, base)
+				b, what = tmReencodeV2(c, base)
 			} else {
-				b, what = ctReencodeV1(c, base)
+				b, what = tmReencodeV1(c, base)
 			}
 		case "untouched":
 			b, what = append([]byte{}, base...), "untouched"
@@ -535,11 +535,11 @@ func runCertTamper(c *hx.Ctx) {
 						failures = append(failures, map[string]any{"i": cw.Total(), "code": 2, "what": "verify-panic", "detail": fmt.Sprint(r)})
 					}
 				}()
-				accepted = ctVerify(pool, l.now, d)
+				accepted = tmVerify(pool, l.now, d)
 				if accepted {
-					blkOrig = ctBlocked(l.ca.crt, l.now, d, l.fp)
+					blkOrig = tmBlocked(l.ca.crt, l.now, d, l.fp)
 					if l.fp2 != "" {
-						blkTwin = ctBlocked(l.ca.crt, l.now, d, l.fp2)
+						blkTwin = tmBlocked(l.ca.crt, l.now, d, l.fp2)
 					}
 				}
 			}()
